@@ -68,6 +68,7 @@ slip_state(const RFC1055Context *c)
 static bool
 slip_ctx(RFC1055Context *c, const char *sof, const char *st)
 {
+    memset(c, 0xa5, sizeof *c);                 /* the initialiser must set every field it relies on */
     rfc1055_context_init(c, sof[0] == '1' ? RFC1055_WITH_SOF : RFC1055_DEFAULT);
     if (!st) return true;
     if (strcmp(st, "start") == 0) c->state = RFC1055_SEARCH_FOR_START;
